@@ -13,6 +13,7 @@
   item of a batch, the oplog append after a successful collection write …).
 -/
 import Lungo.Proofs.OwnRun
+import Lungo.Proofs.OwnSys
 import Lungo.Expected.TxnPrograms
 namespace Lungo.C02
 open Lungo.Own
@@ -65,6 +66,45 @@ theorem op_preserves_old_roots (p : String × Prog) (hp : p ∈ Expected.txnProg
     (a : Args) (ch : Choices) (h : Heap) (t : TxnState) (hc : Closed h) :
     ∀ root, root < h.size → observe (run p.2 a ch (h, t)).1 root = observe h root := fun _ hr =>
   observe_agree hc (owned_sound_strict p.2 (Expected.expected_args p hp hb) a ch h t).2.1 hr
+
+/-! ## Histories: a failing call is invisible at every reachable system state -/
+
+/-- **failed_call_invisible.**  At every state of every history (`Sys.Good` is preserved by every event,
+    `Sys.Good.run`), a Transaction write method that reports an error — with arbitrary caller documents, which
+    reach the transaction fresh, and an arbitrary failure point — leaves the transaction's catalog pointer and
+    dirty flag, the published catalog, and what EVERY existing root observes (the transaction's own view, the
+    published view, every snapshot) exactly as they were.  `Bulk` needs no side condition here: the driver hands
+    it freshly decoded documents. -/
+theorem failed_call_invisible (s : Sys) (g : s.Good) (name : String) (handle : Nat)
+    (docs : List (Var × List Nat)) (ch : Choices) (p : Prog)
+    (hl : Expected.txnPrograms.lookup name = some p)
+    (herr : (run p { handle := handle, docs := (allocArgs s.heap docs).2 } ch
+              ((allocArgs s.heap docs).1, s.txn)).2.2 = .error) :
+    (s.step (.call name handle docs ch)).txn = s.txn ∧
+    (s.step (.call name handle docs ch)).engine = s.engine ∧
+    (s.step (.call name handle docs ch)).snaps = s.snaps ∧
+    ∀ root, root < s.heap.size →
+      observe (s.step (.call name handle docs ch)).heap root = observe s.heap root := by
+  obtain ⟨_, ag⟩ := call_agree name p hl handle docs ch s.heap s.txn
+  have ho := Expected.expected_owned (name, p) (lookup_mem hl)
+  have e := (owned_sound p ho { handle := handle, docs := (allocArgs s.heap docs).2 } ch
+    (allocArgs s.heap docs).1 s.txn).2.2 herr
+  simp only [Sys.step, hl]
+  exact ⟨e, trivial, trivial, fun root hr => observe_agree g.wf.closed ag hr⟩
+
+/-- in particular the transaction's own view and the published view are what they were -/
+theorem failed_call_views (s : Sys) (g : s.Good) (name : String) (handle : Nat)
+    (docs : List (Var × List Nat)) (ch : Choices) (p : Prog)
+    (hl : Expected.txnPrograms.lookup name = some p)
+    (herr : (run p { handle := handle, docs := (allocArgs s.heap docs).2 } ch
+              ((allocArgs s.heap docs).1, s.txn)).2.2 = .error) :
+    let s' := s.step (.call name handle docs ch)
+    observe s'.heap s'.txn.catalog = observe s.heap s.txn.catalog ∧
+    observe s'.heap s'.engine = observe s.heap s.engine := by
+  obtain ⟨h1, h2, _, h4⟩ := failed_call_invisible s g name handle docs ch p hl herr
+  simp only
+  rw [h1, h2]
+  exact ⟨h4 _ g.wf.cat, h4 _ g.engine⟩
 
 /-! ## Batches: a failing item contributes nothing, a succeeding item is installed -/
 
@@ -263,5 +303,12 @@ example : (run pInsert aBatch (chBatch 17) (hA, tA)).2.2 = .ok ∧
 example : (execL insertItem (initSt {} { muts := [{ ok := false }] } hA tA |>.bind "clone" (some 6))).2 = .next ∧
     (execL insertItem (initSt {} { muts := [{ ok := false }] } hA tA |>.bind "clone" (some 6))).1.env.err = true := by
   decide +kernel
+
+
+/-- the hypotheses of `failed_call_invisible` are met by the real `Update` at a concrete good state -/
+example : Expected.txnPrograms.lookup "Update" = some pUpdate ∧
+    (run pUpdate { handle := 1, docs := (allocArgs hA []).2 } chFail ((allocArgs hA []).1, (⟨6, false⟩ : TxnState))).2.2 = .error ∧
+    (6 : Nat) < hA.size := by
+  refine ⟨by decide +kernel, by decide +kernel, by decide +kernel⟩
 
 end Lungo.C02
